@@ -302,11 +302,8 @@ class Producers:
                 out |= self._returns_expr(e["else"], f, env, stack, depth + 1, value_position)
             return out
         if k == "match":
-            hs = self.expr(e["expr"], f, env, stack, depth + 1)
             for arm in e["arms"]:
-                env2 = dict(env)
-                for b in pat_bindings(arm["pat"]):
-                    env2[b] = hs
+                env2 = self.bind_arm(arm["pat"], e["expr"], f, env, stack, depth)
                 out |= self._returns_expr(arm["body"], f, env2, stack, depth + 1, value_position)
             return out
         if k == "block":
@@ -316,6 +313,27 @@ class Producers:
         for c in children(e):
             out |= self._returns_expr(c, f, env, stack, depth + 1)
         return out
+
+    def bind_arm(self, pat, subj, f, env, stack, depth):
+        """environment of a match arm: each binding gets the class of the part of the subject it names — component-wise when a tuple of
+        values is matched against a tuple pattern (`match (rename, rename_all) { (Some(r), _) => .. }`)"""
+        env2 = dict(env)
+        s_ = subj
+        while isinstance(s_, dict) and s_.get("k") in ("paren", "ref"):
+            s_ = s_["expr"]
+        p_ = pat
+        while isinstance(p_, dict) and p_.get("k") in ("ref", "paren") and p_.get("pat") is not None:
+            p_ = p_["pat"]
+        if isinstance(s_, dict) and s_.get("k") == "tuple" and isinstance(p_, dict) and p_.get("k") == "tuple" and len(p_.get("elems", [])) == len(s_.get("elems", [])):
+            for sub_p, sub_e in zip(p_["elems"], s_["elems"]):
+                hs = self.expr(sub_e, f, env, stack, depth + 1)
+                for b in pat_bindings(sub_p):
+                    env2[b] = hs
+            return env2
+        hs = self.expr(subj, f, env, stack, depth + 1)
+        for b in pat_bindings(pat):
+            env2[b] = hs
+        return env2
 
     def call_fn(self, nf, args, stack):
         params = [p["pat"]["name"] for p in nf.sig.get("params", []) if p.get("pat") and p["pat"].get("name")]
@@ -375,12 +393,9 @@ class Producers:
                 out |= self.expr(e["else"], f, env3, stack, depth + 1)
             return frozenset(out)
         if k == "match":
-            hs = self.expr(e["expr"], f, env, stack, depth + 1)
             out = set()
             for arm in e["arms"]:
-                env2 = dict(env)
-                for b in pat_bindings(arm["pat"]):
-                    env2[b] = hs
+                env2 = self.bind_arm(arm["pat"], e["expr"], f, env, stack, depth)
                 out |= self.expr(arm["body"], f, env2, stack, depth + 1)
             return frozenset(out)
         if k == "index":
